@@ -3,5 +3,5 @@ Require Extraction.
 Require Import ExtrOcamlBasic.
 Extraction Language OCaml.
 Separate Extraction ty_eqb wf_ty nodup_names size might_be_weak is_zero_sized feq fit weak has_semantics_of tmax
-  created_from_nothing cast differentiate expect_match expect_block_match expect_return common_ty is_nominal
-  accepts value_ty known_weak_fit known_max ntarget ntarget_code law_nominal law_fit_implies_cast law_weak_implies_fit law_max_accepts.
+  created_from_nothing cast differentiate expect_match expect_block_match expect_return binary_outcome assign_outcome common_ty is_nominal
+  accepts value_ty known_weak_fit known_max known_order max_accepts ntarget ntarget_code law_nominal law_fit_implies_cast law_weak_implies_fit law_max_accepts.
